@@ -549,6 +549,8 @@ def fuse(
 
     if not ave_width or not max_height:
         return dsk, dependencies
+    # ave_width may be infinite ("fuse as much as possible")
+    max_fudge = ave_width - 1 if math.isinf(ave_width) else int(ave_width - 1)
 
     if rename_keys is _default:
         rename_keys = config.get("optimization.fuse.rename-keys")
@@ -732,8 +734,8 @@ def fuse(
                         if children_stack:
                             # Allow the parent to be fused, but only under strict circumstances.
                             # Ensure that linear chains may still be fused.
-                            if fudge > int(ave_width - 1):
-                                fudge = int(ave_width - 1)
+                            if fudge > max_fudge:
+                                fudge = max_fudge
                             # This task *implicitly* depends on `edges`
                             info_stack_append(
                                 (
@@ -855,8 +857,8 @@ def fuse(
                             # Ensure that linear chains may still be fused.
                             if width > max_width:
                                 width = max_width
-                            if fudge > int(ave_width - 1):
-                                fudge = int(ave_width - 1)
+                            if fudge > max_fudge:
+                                fudge = max_fudge
                             # key, task, height, width, number of nodes, fudge, set of edges
                             # This task *implicitly* depends on `edges`
                             info_stack_append(
